@@ -4,7 +4,7 @@
 FIX_COMMITS = [
     "02a02b1", "c32131a", "324bd77", "876de36", "e2492f3", "e522aa8", "02b45be", "2a6ea78", "7fbeea5", "b9a009d",
     "caa585b", "a0bae72", "49c1276", "a9a220e", "3b6199f", "d3ca28d", "e11250e", "3ac0c81", "b80de6a", "773425f",
-    "a468da5", "3e9bf5d", "abf25e6", "2859361", "650ac10", "2493939", "3e31ca3", "64111f6", "3e81fe2", "0648151", "661c1df",
+    "a468da5", "3e9bf5d", "abf25e6", "2859361", "650ac10", "2493939", "3e31ca3", "64111f6", "3e81fe2", "0648151", "661c1df", "a5e88fa",
 ]
 
 NOT_APPLICABLE = {
@@ -38,6 +38,7 @@ SIB = ("siblings", "instrumenter_siblings", {})
 REIMPL = ("siblings", "reindexable_impls", {})
 TAGU = ("siblings", "tag_utils_siblings", {})
 ARGN = ("fields", "call_arg_names", {})
+FFC = ("fields", "foreign_fields_cover", {})
 MODEF = ("modes", "mode_field", {})
 BLOCKT = ("special", "block_tables", {})
 CLEARS = ("special", "resolve_clears", {})
@@ -176,32 +177,32 @@ PROPS = {
              "R-BLOCK-TABLES(2), R-RESOLVER-DETAILS, R-RESOLVE-CLEARS.",
              "firing semantics.",
              "table agreement"),
-    "C19": P([INJAT, EMITORD, FINISH, SIB, MODEHELP, LCG, SAVESIB, WALK, SPFLAG, CLEARCOH, MODEF, BLOCKT, DETAILS, ("misc", "scoped_pending", {}), CLEARS],
+    "C19": P([ENCW, INJAT, EMITORD, FINISH, SIB, MODEHELP, LCG, SAVESIB, WALK, SPFLAG, CLEARCOH, MODEF, BLOCKT, DETAILS, ("misc", "scoped_pending", {}), CLEARS],
              "necessary: every opener pushed, exit bodies scoped to their block and resolved Before the closing else/end",
              "R-BLOCK-TABLES(1,2), R-RESOLVER-DETAILS, R-SCOPED-PENDING, R-RESOLVE-CLEARS.",
              "firing semantics.",
              "table agreement + container scoping analysis"),
-    "C20": P([INJAT, ("mutators", "locals_owner", {}), EMITORD, FINISH, MODEHELP, ("misc", "if_chain", {}), LCG, SAVESIB, SCOPED, WALK, SPFLAG, CLEARCOH, MODEF, BLOCKT, DETAILS, ("misc", "flag_reset", {}), ("misc", "dead_after_sink", {}), CLEARS],
+    "C20": P([ENCW, INJAT, ("mutators", "locals_owner", {}), EMITORD, FINISH, MODEHELP, ("misc", "if_chain", {}), LCG, SAVESIB, SCOPED, WALK, SPFLAG, CLEARCOH, MODEF, BLOCKT, DETAILS, ("misc", "flag_reset", {}), ("misc", "dead_after_sink", {}), CLEARS],
              "necessary: branch tables agree, target id arithmetic, flag protocol (set/reset), flag reset inside guard, no After code on the final end",
              "R-BLOCK-TABLES(1,3), R-RESOLVER-DETAILS, R-FLAG-RESET, R-DEAD-AFTER-SINK, R-RESOLVE-CLEARS.",
              "exactly-once at run time.",
              "table agreement + path enumeration"),
-    "C21": P([INJAT, EMITORD, FLF, SCOPED, FINISH, MODESET, SIB, MODEHELP, LCG, WALK, SPFLAG, CLEARCOH, MODEF, BLOCKT, DETAILS, CLEARS, CLEARCOH],
+    "C21": P([ENCW, INJAT, EMITORD, FLF, SCOPED, FINISH, MODESET, SIB, MODEHELP, LCG, WALK, SPFLAG, CLEARCOH, MODEF, BLOCKT, DETAILS, CLEARS, CLEARCOH],
              "necessary: opener stack, delete_block bookkeeping, retain_end, every visited instruction emptied while deleting",
              "R-BLOCK-TABLES(1,2), R-RESOLVER-DETAILS, R-RESOLVE-CLEARS, R-CLEAR-COHERENT.",
              "textual result.",
              "table agreement + guarded-write analysis"),
-    "C22": P([MODRESET, EMITORD, FLF, FINISH, MODEHELP, MODESET, ("special", "block_tables", {"openers_clause": False}), LCG, WALK, SAVESIB, SCOPED, ("special", "special_flag", {}), CLEARS, ("special", "entry_preserve", {}), MODEF, SIB, ("misc", "dead_after_sink", {}), ("modes", "has_instr_cover", {}), CLEARCOH, INJAT],
+    "C22": P([ENCW, MODRESET, EMITORD, FLF, FINISH, MODEHELP, MODESET, ("special", "block_tables", {"openers_clause": False}), LCG, WALK, SAVESIB, SCOPED, ("special", "special_flag", {}), CLEARS, ("special", "entry_preserve", {}), MODEF, SIB, ("misc", "dead_after_sink", {}), ("modes", "has_instr_cover", {}), CLEARCOH, INJAT],
              "necessary set: the is-special result is never dropped, lowered lists are cleared with the matching mode, the saved entry body is never overwritten, mode→list dispatch, no dead After sink",
              "R-SPECIAL-FLAG, R-RESOLVE-CLEARS, R-ENTRY-PRESERVE, R-MODE-FIELD, R-SIBLING(instrumenter), R-DEAD-AFTER-SINK, R-HAS-INSTR, R-CLEAR-COHERENT, R-INJECT-AT.",
              "that every accepted special injection appears in the bytes for every body.",
              "result-use analysis + guarded-write analysis"),
-    "C23": P([TAGU, SIB, MODESET, TT_BOTH, ADDFLOW, SCRATCH, MAPUNC, FULLIT, ("emit", "tag_emit", {}), MODEF, ("misc", "type_dedup", {})],
+    "C23": P([LOCADDR, TAGU, SIB, MODESET, TT_BOTH, ADDFLOW, SCRATCH, MAPUNC, FULLIT, ("emit", "tag_emit", {}), MODEF, ("misc", "type_dedup", {})],
              "necessary: InjectType↔Injection pairing, guards, parse-path tags are None, probe bodies collected after remapping",
              "R-TAG-EMIT (incl. R-PARSE-TAG-NONE), R-MODE-FIELD, R-TYPE-DEDUP (a parsed type is never overwritten by a tagged request for the same signature).",
              "record multiset over histories.",
              "pairing table + dominance by statement order"),
-    "C24": P([("reindex", "refers_exh", {"kind": "memory"}), ("reindex", "refers_exh", {"kind": "func"}), ("reindex", "refers_exh", {"kind": "global"}), MAPARGS, ("opcode", "opcode_table", {}), TT_AUX, TT_BOTH],
+    "C24": P([("misc", "builder_flow", {}), ("reindex", "refers_exh", {"kind": "memory"}), ("reindex", "refers_exh", {"kind": "func"}), ("reindex", "refers_exh", {"kind": "global"}), MAPARGS, ("opcode", "opcode_table", {}), TT_AUX, TT_BOTH],
              "finite obligations: 200 helpers × {one inject on self, variant = reviewed table, each immediate from one parameter through bit-preserving conversions}; the conversion tables the helpers rely on are decided by R-TYPE-TABLE",
              "R-OPCODE-TABLE for all helpers, R-TYPE-TABLE(aux) for BlockType/HeapType conversions, writer agreement for DataType.",
              "Inject::inject implementations (C15/C12) and dependency From impls (trusted).",
@@ -216,12 +217,12 @@ PROPS = {
              "R-SIBLING(instrumenter), R-COUPLED-STATE, R-WHOMAYCALL.",
              "visit-sequence equality over all components and skip maps.",
              "sibling effect summaries"),
-    "C27": P([ARGN, CONVSIB, COUPCNT, ("component", "name_section_guard", {}), NEST, RECD, FULLIT, ("component", "variant_method_tables", {}), ("component", "section_pairing", {}), SCRATCH],
+    "C27": P([FFC, ARGN, CONVSIB, COUPCNT, ("component", "name_section_guard", {}), NEST, RECD, FULLIT, ("component", "variant_method_tables", {}), ("component", "section_pairing", {}), SCRATCH],
              "necessary: each defined-type / canonical-function variant is re-encoded through its own builder method; each section tag replays the vector it recorded with its own cursor",
              "R-VARIANT-METHOD (2 + 1 tables, 67 arms), R-SECTION-PAIRING (12 tags), R-LOOP-SCRATCH.",
              "equality of the decoded component for every input (R-NEST-TRACK decides the push/pop discipline of the nesting stack structurally: one level opened per nested-section payload on every path, one closed per End).",
              "variant→method correspondence + tag↔vector pairing"),
-    "C28": P([ENCW, EMITALL, FULLIT, ("fields", "custom_sections", {})],
+    "C28": P([("component", "section_pairing", {}), ENCW, EMITALL, FULLIT, ("fields", "custom_sections", {})],
              "necessary: one owner of the custom-section list, order-preserving API, name/data copied to name/data, forward emission",
              "R-CUSTOM-SECTIONS.",
              "byte equality of the emitted sections over edit sequences.",
